@@ -3,6 +3,8 @@ package main
 import (
 	"bytes"
 	"fmt"
+	"go/ast"
+	"go/token"
 	"strings"
 )
 
@@ -35,4 +37,57 @@ func (s *sections) err() error {
 		return nil
 	}
 	return fmt.Errorf("%s", strings.Join(s.errs, "; "))
+}
+
+// singleDef: the right-hand side of the ONLY statement in fd that defines or assigns the local variable id
+// (`x := e`, `x = e`, `var x = e`), or nil when there is none or more than one (or it is a parameter).
+func (p *pkgInfo) singleDef(fd *ast.FuncDecl, id *ast.Ident) ast.Expr {
+	obj := p.info.Uses[id]
+	if obj == nil {
+		obj = p.info.Defs[id]
+	}
+	if obj == nil || obj.Parent() == p.pkg.Scope() {
+		return nil
+	}
+	var rhs []ast.Expr
+	same := func(l ast.Expr) bool {
+		li, ok := l.(*ast.Ident)
+		if !ok {
+			return false
+		}
+		o := p.info.Defs[li]
+		if o == nil {
+			o = p.info.Uses[li]
+		}
+		return o == obj
+	}
+	ast.Inspect(fd, func(n ast.Node) bool {
+		switch s := n.(type) {
+		case *ast.AssignStmt:
+			for i, l := range s.Lhs {
+				if same(l) {
+					if len(s.Lhs) == len(s.Rhs) && (s.Tok == token.DEFINE || s.Tok == token.ASSIGN) {
+						rhs = append(rhs, s.Rhs[i])
+					} else {
+						rhs = append(rhs, nil)
+					}
+				}
+			}
+		case *ast.ValueSpec:
+			for i, l := range s.Names {
+				if same(l) && i < len(s.Values) {
+					rhs = append(rhs, s.Values[i])
+				}
+			}
+		case *ast.IncDecStmt:
+			if same(s.X) {
+				rhs = append(rhs, nil)
+			}
+		}
+		return true
+	})
+	if len(rhs) == 1 {
+		return rhs[0]
+	}
+	return nil
 }
